@@ -309,6 +309,44 @@ def lifecycle_case(clsname, queued, rng):
     for h in ('go', 'back', 'may_go', 'trigger', 'may_trigger', 'is_A', 'is_C'):
         if not hasattr(late, h):
             bad('late-model-missing-helper', 'C10.add-later', helper=h)
+    # a registration that FAILS (unknown initial state) leaves no trace in the registry; the corrected call then works
+    if rng.random() < 0.5:
+        rej = PlainModel('rejected')
+        try:
+            mach.add_model(rej, initial='nowhere')
+            bad('model-accepted-with-an-unregistered-initial-state', 'C10.add-rejected', state=str(getattr(rej, 'state', None)))
+        except Exception:       # noqa
+            pass
+        if any(m is rej for m in mach.models):
+            bad('rejected-model-stays-registered', 'C10.add-rejected', n=len(mach.models))
+            return out
+        try:
+            mach.add_model(rej)
+        except Exception as e:  # noqa
+            bad('corrected-add-model-raised', 'C10.add-rejected', err=repr(e)[:120])
+            return out
+        if getattr(rej, 'state', None) != 'A' or not any(m is rej for m in mach.models):
+            bad('corrected-add-model-without-effect', 'C10.add-rejected', state=str(getattr(rej, 'state', None)))
+        models.append(rej)
+        rej = None          # (must not keep the model alive: collectability is checked below)
+    # the machine as its own model (the default): naming it again — by the literal or as an object, alone or next to a
+    # new model — has no effect on it, and the new model is registered completely
+    if rng.random() < 0.35:
+        own_m = cls(states=states, transitions=trans, initial='A', queued=queued, auto_transitions=auto, **kw)
+        k, r = call(own_m, own_m.go)
+        newm = PlainModel('next-to-self')
+        try:
+            own_m.add_model(rng.choice(['self', own_m]))
+            own_m.add_model(['self', newm] if rng.random() < 0.5 else [newm, own_m])
+        except Exception as e:  # noqa
+            bad('add-twice-raised', 'C10.add-twice-self', err=repr(e)[:120])
+            return out
+        if len(own_m.models) != 2 or own_m.state != 'B' or getattr(newm, 'state', None) != 'A':
+            bad('add-twice-changed-model-list', 'C10.add-twice-self', n=len(own_m.models), own=str(own_m.state),
+                new=str(getattr(newm, 'state', None)))
+        if 'Graph' in clsname and not (hasattr(newm, 'get_graph') and newm.get_graph() is not None):
+            bad('late-model-missing-helper', 'C10.add-twice-self', helper='get_graph')
+        own_m = newm = r = None
     # subsequently added state / transition reach every model
     mach.add_states('D')
     mach.add_transition('jump', '*', 'D')
